@@ -491,6 +491,15 @@ def opVerdict (req : J) : J :=
   let text := match req.get? "text" with | some (J.str s) => s | _ => ""
   J.obj [("v", J.str (match Pipeline.verdict text.toList with | .converted => "converted" | .rejected => "rejected" | .crashed => "crashed"))]
 
+/-- op `reveals`: global corners of the four reveal surfaces of a set-back window -/
+def opReveals (req : J) : J :=
+  let tr := (req.get? "trig").getD J.null
+  let pos := match (req.get? "position").map jnums with | some [a, b, c] => (⟨a, b, c⟩ : Vec3) | _ => ⟨0, 0, 0⟩
+  let w := (req.get? "window").getD J.null
+  let rs := Place.reveals pos (PlaceIO.ang tr "az") (PlaceIO.ang tr "t") (PlaceIO.num w "x") (PlaceIO.num w "y") (PlaceIO.num w "w")
+    (PlaceIO.num w "h") (PlaceIO.num w "setback")
+  J.obj [("reveals", J.arr (rs.map (fun r => J.arr (r.map (fun c => J.arr [J.ofRat c.x 6, J.ofRat c.y 6, J.ofRat c.z 6])))))]
+
 /-- op `occupancy`: yearly occupied time and mean internal load -/
 def opOccupancy (m : Model) : J :=
   J.obj [("hours_in_use", J.ofNat (hoursInUse m)), ("average_load", jr (averageLoad (Fns.approx 0) m)),
@@ -552,6 +561,7 @@ def handle (line : String) : String :=
       | some (J.str "bdlblocks") => opBdlBlocks req
       | some (J.str "skelconvert") => opSkelConvert req
       | some (J.str "placement") => opPlacement req
+      | some (J.str "reveals") => opReveals req
       | some (J.str "kyg") => opKyg req
       | some (J.str "bdldata") => opBdlData req
       | some (J.str "verdict") => opVerdict req
